@@ -936,17 +936,44 @@ func (s *memState) entry(b *ssa.BasicBlock) *Term {
 			return t
 		}
 	}
-	switch len(b.Preds) {
-	case 0:
+	preds := b.Preds
+	if len(preds) > 1 {
+		// loop header whose loop contains no write to this location: the value
+		// is loop-invariant, only the forward edges matter
+		var fwd []*ssa.BasicBlock
+		for _, p := range preds {
+			if !b.Dominates(p) {
+				fwd = append(fwd, p)
+			}
+		}
+		if len(fwd) < len(preds) && len(fwd) > 0 {
+			loop := naturalLoop(b)
+			written := false
+			for _, w := range s.ws {
+				if loop[w.instr.Block()] {
+					written = true
+				}
+			}
+			if !written {
+				preds = fwd
+			}
+		}
+	}
+	switch {
+	case len(preds) == 0:
 		t = s.initial()
-	case 1:
-		t = s.exit(b.Preds[0])
+	case len(preds) == 1:
+		t = s.exit(preds[0])
 	default:
-		vals := make([]*Term, len(b.Preds))
-		for i, p := range b.Preds {
+		vals := make([]*Term, len(preds))
+		for i, p := range preds {
 			vals[i] = s.exit(p)
 		}
-		if g := s.e.gateOf(b, vals); g != nil {
+		var g *Term
+		if len(preds) == len(b.Preds) {
+			g = s.e.gateOf(b, vals)
+		}
+		if g != nil {
 			t = g
 		} else {
 			uniq := map[string]*Term{}
